@@ -15,7 +15,7 @@
    a ListNode, soydoc params are SoyDocParamNodes, a {let} is a direct child of
    a ListNode); the harness evaluates them on every parsed bundle. *)
 (* source tie by translation: the lemmas of these files are obligations of this property *)
-From Soy Require Import Proofs.SourceTieChecker.
+From Soy Require Import Proofs.SourceTieChecker Proofs.SourceTieChildren.
 From Soy Require Import Model.Bytes Model.Num Model.Values Model.Outcome Model.Ast Model.Interp Model.RefView Model.Checker
   Spec.Wf Proofs.CheckerProofs Proofs.CheckerInterpProofs.
 From Coq Require Import Permutation.
@@ -67,6 +67,22 @@ Print Assumptions C07_checker_models_agree.
 Theorem C07_checker_models_agree_run : forall reg,
   registry_maps_sorted reg = true -> check_registry_c13 reg = check_registry reg.
 Proof. exact check_registry_c13_agrees. Qed.
+
+(* The tree shape both models walk -- which fields of a node Children() returns, in which order -- is read from
+   ast/node.go on every run: tablegen translates every Children() method into selectors over the receiver's
+   fields (Generated.Tables.ast_children), and the model of Children() (Model/Compile.v [children], to which the
+   view of Model/RefView.v is tied node by node by Proofs/CheckerCompileTie.v kids_tie) is that list for every
+   node of the model; the nodes outside the table have no children.  [go_type] / [field] (which Go type and
+   field a component of the model's node stands for) are the hand-written part, shared with the AST dump. *)
+Theorem C07_children_match_source : forall ko0 n,
+  match go_type n with
+  | Some t => match assoc_s t Generated.Tables.ast_children with
+              | Some l => sels ko0 n l = Some (children (sorted_after ko0) n)
+              | None => False
+              end
+  | None => children (sorted_after ko0) n = []
+  end.
+Proof. exact children_matches_source. Qed.
 
 (* ------------------------------------------------------------------ *)
 (* 2. static scoping is sound for the scope stack *)
